@@ -924,7 +924,7 @@ func note(op int, wasOpen, engErr bool) {
 }
 
 func main() {
-	c = lib.New("C13", "model_checking", 100*time.Second, 25*time.Minute)
+	c = lib.New("C13", "model_checking", 140*time.Second, 25*time.Minute)
 	if sched.IsWorker() {
 		sqlconc.Phase(c, "C13", 0, 1) // shard worker of the concurrent-sessions phase: does not return
 	}
@@ -969,7 +969,7 @@ func main() {
 	}
 	// two sessions, sequentially interleaved, with DDL committed by the second one (package sqlconc, twosess.go)
 	{
-		d, share := 4, 15
+		d, share := 4, 30
 		if c.Thorough() {
 			d = 5
 		}
